@@ -26,7 +26,7 @@ ASSUMPTIONS = [
 GATES = {
     "bit0_set_and_clear": 1, "bit1_set_and_clear": 1, "bit2_set_and_clear": 1, "bit6_set_and_clear": 1,
     "bit7_set_and_clear": 1, "bits_6_and_7_together": 1, "step_kind_repeated_twice": 1, "step_kind_repeated_3x": 1,
-    "steps_monitored": 100, "cause_oracle_pixels": 10000,
+    "steps_monitored": 100, "cause_oracle_pixels": 10000, "pixels_computable_at_sub_pixel_samples_only": 5,
 }
 REFINE, FILL_OCC, FILL_MIS, OCC, MIS, B11 = 8, 16, 32, 256, 512, 2048
 
@@ -77,9 +77,13 @@ def _inputs(rng, directed=None, need_right_disp=False, small=False):
         rm[rows // 2, :] = 3
         lmk = rmk = "directed-b6b7"
     ik = ["neg", "pos", "straddle", "point", "straddle", "grid"][int(rng.integers(0, 6))]
+    if directed == "float-grid":
+        ik = "grid"
     if ik == "grid":
         lo, hi = -int(rng.integers(1, 4)), int(rng.integers(0, 4))
-        gk = ["random", "band", "pointvar"][int(rng.integers(0, 3))]
+        gk = ["random", "band", "pointvar", "float"][int(rng.integers(0, 4))]
+        if directed == "float-grid":
+            gk = "float"
         disp = gen.grids(rng, rows, cols, lo, hi, gk)
         rdisp = gen.grids(rng, rows, cols, -hi, -lo, gk)
     else:
@@ -144,12 +148,15 @@ def _cause(case, ctx):
     import pandora
 
     rng = ctx.rng("cause", case.get("part"), case.get("i"), case.get("directed"))
-    left, right, w, desc = _inputs(rng, case.get("directed"))
+    directed = case.get("directed") or ("float-grid" if case.get("i") == 0 else None)
+    left, right, w, desc = _inputs(rng, directed)
     rows, cols = desc["shape"]
     method = ["sad", "census", "zncc", "ssd"][int(rng.integers(0, 4))]
     if method == "census":
         w = 3 if w not in (3, 5) else w
     subpix = int(rng.choice([1, 2, 4]))
+    if directed == "float-grid":
+        subpix = [2, 4][int(case.get("part") or 0) % 2]
     inv = [-9999, np.nan, 1e6][int(rng.integers(0, 3))]
     validation = rng.random() < 0.4
     keys = ["matching_cost", "disparity"] + (["validation"] if validation else [])
@@ -187,6 +194,9 @@ def _cause(case, ctx):
         inner = ~exp["border"]
         ctx.gate("cause_oracle_pixels", int(inner.sum()))
         allnan = np.isnan(cv["cost_volume"].data).all(axis=2)
+        if side == "left" and subpix > 1:
+            ctx.gate("pixels_computable_at_sub_pixel_samples_only",
+                     int((np.isnan(cv["cost_volume"].data[:, :, ::subpix]).all(axis=2) & ~allnan & inner).sum()))
         for bit, name, expmap in ((1, "b0", exp["b0"]), (4, "b2", exp["b2"]), (64, "b6", exp["b6"]), (128, "b7", exp["b7"]),
                                   (2, "b1", allnan)):
             got = (mask & bit) != 0
